@@ -199,6 +199,11 @@ def execute(program, solve=True, oracle=True, horizon=None, stop_before_main=Fal
                 else:
                     model.GetSectors()
                     c.GetSectors()
+            elif op == 'CrossRate':
+                # the public convenience call: the name of the cross rate between two currencies (creates the
+                # variable in EXT.XR on first use); may be asked long before main()
+                name = b.countries['EXT'].GetCrossRate(st['local'], st['foreign'])
+                b.names_handed_out.append((idx, 'EXT.XR', '%s_%s' % (st['local'], st['foreign']), name))
             elif op == 'GetName':
                 name = sec(st['sector']).GetVariableName(st['var'])
                 b.names_handed_out.append((idx, st['sector'], st['var'], name))
